@@ -84,7 +84,7 @@ def gen_config(ctx):
     pmax = 4 if dim == 1 else (3 if dim == 2 else 2)
     degs = [c.intrange(1, pmax) for _ in range(dim)]
     ncoarse = [c.intrange(2, 5 if dim == 1 else (4 if dim == 2 else 2)) for _ in range(dim)]
-    wide = bool(dim <= 2 and c.chance(20))
+    wide = bool(dim <= 2 and c.chance(30))
     if wide:
         # a wide coarse mesh with a real interior (low degree keeps it cheap): refinements far from the
         # boundary whose disparity closure reaches it, isolated refined islands, ...
@@ -132,7 +132,7 @@ def gen_config(ctx):
         maxlevel = 2 if prop in ('C03',) else 3
     if prop in ('C03', 'C11') and dim == 2:
         maxlevel = min(maxlevel, 3)
-    nops = c.intrange(2, 7)
+    nops = c.intrange(2, 10 if prop in ('C11', 'C04') else 7)
     if wide:
         maxlevel = min(maxlevel, 3 if dim == 1 else 2)
     return dict(dim=dim, degs=degs, ncoarse=ncoarse, knotkind=knotkind, wide=wide, knots0=knots0, truncate=truncate,
@@ -187,13 +187,29 @@ def marks_from_choices(w, o):
     chosen = []
     for _ in range(nlev):
         l = levels[o.choice(len(levels))]
+        if len(levels) >= 2 and l == levels[-1] and o.choice(2):
+            l = levels[o.choice(len(levels) - 1)]       # bias: refinements that do NOT add a level
         if l not in chosen:
             chosen.append(l)
     marks, kinds = {}, {}
     for l in chosen:
         act = sorted(m.active_cells(l))
-        pat = o.weighted([('few', 5), ('single', 3), ('block', 3), ('all', 1), ('row', 1), ('subset', 2)])
-        if pat == 'subset':
+        pat = o.weighted([('few', 5), ('single', 3), ('block', 3), ('all', 1), ('row', 1), ('subset', 2), ('interior', 3),
+                          ('frontier', 3)])
+        if pat == 'frontier' and l >= 1:
+            # cells at the frontier of the level-l region (a neighbour of the parent is still an ACTIVE coarser
+            # cell): exactly where the disparity closure has to refine coarser cells as well
+            coarse = m.active_cells(l - 1)
+            fr = [c for c in act if any(tuple((ci >> 1) + dj for ci, dj in zip(c, off)) in coarse
+                                        for off in itertools.product((-1, 0, 1), repeat=len(c)))] or act
+            cells = [fr[i] for i in o.sample_positions(len(fr), 2)]
+        elif pat in ('interior', 'frontier'):
+            # one or two cells that do not touch the boundary of the domain (if there are any): what an
+            # adaptive loop marks; only the disparity closure may then reach the boundary
+            nc = m.ncells(l)
+            inner = [c for c in act if all(0 < ci < n - 1 for ci, n in zip(c, nc))] or act
+            cells = [inner[i] for i in o.sample_positions(len(inner), 2)]
+        elif pat == 'subset':
             # uniformly random non-empty subset (every cell with probability 1/2): the quantifier's
             # "all non-empty subsets of active cells", sampled
             cells = [c for c in act if o.choice(2)]
@@ -217,6 +233,44 @@ def marks_from_choices(w, o):
     return marks, kinds
 
 
+def adaptive_script(w, o):
+    """A scripted history prefix imitating an adaptive loop on a wide mesh: refine an interior block, refine
+    part of it again (a third level appears), USE the space (Dirichlet/smoothing queries fill the caches), then
+    refine a cell at the frontier of the level-1 region WITHOUT adding a level -- the disparity closure then has
+    to refine coarser cells, possibly up to the boundary.  The rest of the history is random as usual."""
+    def block0(w, o):
+        m = w.model
+        act = sorted(m.active_cells(0))
+        nc = m.ncells(0)
+        inner = [c for c in act if all(0 < ci < n - 1 for ci, n in zip(c, nc))] or act
+        c0 = inner[o.choice(len(inner))]
+        r = o.choice(2)
+        cells = [c for c in act if all(abs(a - b) <= r for a, b in zip(c, c0))]
+        return {0: sorted(cells)}, {0: o.pick(['set', 'list', 'tuple'])}
+
+    def centre1(w, o):
+        m = w.model
+        act = sorted(m.active_cells(1))
+        if not act:
+            return None, None
+        cells = [act[i] for i in o.sample_positions(len(act), 3)]
+        return {1: sorted(set(cells))}, {1: o.pick(['set', 'list', 'tuple'])}
+
+    def frontier1(w, o):
+        m = w.model
+        act = sorted(m.active_cells(1))
+        if not act:
+            return None, None
+        coarse = m.active_cells(0)
+        fr = [c for c in act if any(tuple((ci >> 1) + dj for ci, dj in zip(c, off)) in coarse
+                                    for off in itertools.product((-1, 0, 1), repeat=len(c)))] or act
+        cells = [fr[i] for i in o.sample_positions(len(fr), 2)]
+        return {1: sorted(set(cells))}, {1: o.pick(['set', 'list', 'tuple'])}
+    qname = o.pick(['index_dirichlet', 'smooth:func_supp', 'dirichlet_dofs', 'non_dirichlet_dofs', 'smooth:new',
+                    'ravel_dirichlet', 'ravel_global', 'smooth:cell_supp'])
+    return [('refine', block0), ('refine', centre1), ('query', qname), ('refine', frontier1)]
+
+
 def containerise(marks, kinds):
     out = {}
     for l, cells in marks.items():
@@ -232,6 +286,7 @@ def do_refine(w, marks, kinds, via='refine', region=None, mark_truncate=False):
         # marking, so the property's HB disparity clause is not demanded from here on; everything else is.
         w.nondefault_marking = True
     before_active = {l: set(m.active_cells(l)) for l in range(m.L + 1)}
+    levels_before = m.L
     arg = containerise(marks, kinds)
     if via == 'refine':
         w.requests.append(('refine', containerise(marks, kinds), mark_truncate))
@@ -285,6 +340,8 @@ def do_refine(w, marks, kinds, via='refine', region=None, mark_truncate=False):
             ctx.count('probe.refine.only-closure-touches-dirichlet-face')
             if w.queried_since_refine:
                 ctx.count('probe.refine.only-closure-touches-dirichlet-face.after-cache-fill')
+                if max(actual) + 2 <= levels_before:
+                    ctx.count('probe.refine.only-closure-touches-dirichlet-face.after-cache-fill.no-new-level')
     m.apply_refine(actual)
     w.history.append({l: sorted(cs) for l, cs in actual.items()})
     w.nrefine += 1
@@ -638,7 +695,7 @@ def run_case(ctx):
         'C04': [('refine', 8), ('query', 6), ('refine_region', 2), ('flip', 1), ('copy', 1)],
         'C05': [('refine', 8), ('query', 3), ('snapshot', 4), ('refine_region', 1), ('flip', 1)],
         'C03': [('refine', 8), ('query', 3), ('assemble', 3), ('flip', 1), ('refine_region', 1)],
-        'C11': [('refine', 8), ('query', 4), ('refine_region', 1), ('flip', 1), ('copy', 1)],
+        'C11': [('refine', 8), ('query', 6), ('refine_region', 1), ('flip', 1), ('copy', 1)],
     }[prop]
     if prop == 'C04' and ctx.ch.stream('cfg').chance(30):
         check_c04(w, deep=False)       # the empty history
@@ -646,10 +703,15 @@ def run_case(ctx):
     if prop == 'C03':
         from . import hsim_c03
         aux = hsim_c03.State(w)
-    for step in range(cfg['nops']):
-        op = o.weighted(weights)
+    script = adaptive_script(w, o) if (cfg.get('wide') and cfg['disparity'] != np.inf and o.choice(2)) else []
+    if script:
+        ctx.count('history.adaptive-loop-prefix')
+    for step in range(max(cfg['nops'], len(script) + 1) if script else cfg['nops']):
+        forced = script.pop(0) if script else None
+        op = forced[0] if forced else o.weighted(weights)
+        cache_was_filled = w.queried_since_refine
         if op == 'refine' or (op == 'refine_region' and False):
-            marks, kinds = marks_from_choices(w, o)
+            marks, kinds = forced[1](w, o) if forced else marks_from_choices(w, o)
             if marks is None:
                 ctx.count('op.refine.skipped.maxlevel')
                 continue
@@ -685,7 +747,7 @@ def run_case(ctx):
             if not do_refine(w, {lv: cells}, {lv: 'tuple'}, via='region', region=(lv, pred)):
                 return
         elif op == 'query':
-            name = QUERIES[o.choice(len(QUERIES))]
+            name = forced[1] if forced else QUERIES[o.choice(len(QUERIES))]
             ctx.log(['query', name])
             ctx.count('op.query')
             r = do_query(w, name, o)
@@ -726,6 +788,11 @@ def run_case(ctx):
                 return
             continue
         # ---- after a state-changing op
+        if cache_was_filled and prop in ('C04', 'C11') and op in ('refine', 'refine_region') and o.chance(60):
+            # stale caches are transient (a later refinement may clear them again): look right now
+            ctx.count('coherence.checked.right-after-refine')
+            if not coherence_check(w):
+                return
         if prop == 'C04':
             big = int(np.prod(m.nfuncs(max(0, m.L - 1))))
             if not check_c04(w, deep=(big <= 1600)):
